@@ -151,6 +151,10 @@ def run(tier, rep, ev):
                     where = line.strip().split("py7zr/")[-1].split(",")[0] + ":" + line.strip().split(" in ")[-1]
                     break
         key = ("delegated-codec:pyppmd:" + o.status) if ppmd else f"{o.status}:{fam.split(':')[0]}:{where or m['what'].split(' ')[0]}"
+        if o.status == "crash" and _top_frame_in_pyppmd_call(o.detail):
+            # the interpreter died inside a call into the delegated library (faulthandler: the most recent Python frame is the line of
+            # PpmdDecompressor / PpmdCompressor that calls pyppmd): py7zr is pure Python, the fault is the extension's
+            key = "delegated-codec:pyppmd:crash-inside-the-library"
         if m["what"].startswith("padded packed header: numfiles"):
             key = "compound:numfiles-behind-zero-padding"        # (time or memory, wherever the stack stood: one input class)
         rep.violation(key, f"{fam}: {m['what']} with calls {m['seq']} {kind}. {o.detail[:600]}",
@@ -163,6 +167,29 @@ def run(tier, rep, ev):
                       "(every NUMBER field x hostile values, sections dropped/duplicated/swapped, re-sealed) + splices + wrong passwords + junk; "
                       "x 6 call sequences; distinct = (archive, mutation, sequence)")
     ev.assumptions += ["'bounded' = 10 s wall clock; memory: 1 GiB of address space, or - when a decoder reserves more without using it - 512 MiB of resident growth under 8 GiB of address space"]
+
+
+def _top_frame_in_pyppmd_call(detail):
+    """faulthandler's dump: is the most recent frame of the crashing thread one of the lines of py7zr/compressor.py that call pyppmd?"""
+    import inspect
+    import re
+
+    import py7zr.compressor as C
+    spans = []
+    for cls in (C.PpmdDecompressor, C.PpmdCompressor):
+        for name in ("__init__", "decompress", "compress", "flush"):
+            fn = getattr(cls, name, None)
+            if fn is not None:
+                try:
+                    src, first = inspect.getsourcelines(fn)
+                    spans.append((first, first + len(src) - 1))
+                except (OSError, TypeError):
+                    pass
+    mm = re.search(r"most recent call first\):\s*\n\s*File \"([^\"]+)\", line (\d+) in (\w+)", detail)
+    if not mm or not mm.group(1).endswith("py7zr/compressor.py"):
+        return False
+    line = int(mm.group(2))
+    return any(a <= line <= b for a, b in spans)
 
 
 def replay(path, rep, ev):
